@@ -75,7 +75,7 @@ fn run_replay(j: &J) -> Result<J, String> {
         Some("sweep") => match j.get("function").and_then(|f| f.as_str()) {
             Some("for_label") => sweep::c13::replay(j),
             Some(f) if f.ends_with("_up_to") => sweep::c14::replay(j),
-            _ => Ok(J::obj().set("note", J::s("this sweep case is re-run by its check; the file documents the input"))),
+            _ => sweep::replay::replay(j),
         },
         Some(e) => Err(format!("unknown engine {}", e)),
         None => Err("no engine".into()),
